@@ -1,7 +1,8 @@
 (* C16 - Sum-tree answers every range-sum query like a sorted map would.
    Property theorems only; each is closed by a lemma from C16/*.v.
 
-   The full statement [C16_full] is FALSE of the faithful model and of the real code (finding F2): see the
+   The full statement [C16_full] is FALSE of the faithful model and of the real code (findings F2b-F2d, all in Remove; F2a -
+   TotalAccumulatedValue - was repaired in /repo by 9b85b1164c and is now part of the proved theorem): see the
    [_refuted] theorems; the witnesses are replayed on the Go driver on every run (props/c16.py WITNESSES). *)
 From Coq Require Import ZArith List Bool Lia.
 Import ListNotations.
@@ -17,12 +18,6 @@ Definition C16_full : Prop := C16_full_statement.
 Theorem C16_full_refuted : ~ C16_full.
 Proof. exact full_refuted. Qed.
 Print Assumptions C16_full_refuted.
-
-(* F2a: TotalAccumulatedValue after a single Set on a fresh tree is 0, the map's total is 16 *)
-Theorem C16_total_refuted : exists st, run_new 2 w_total_ops = Ok st /\
-  total_acc st = Ok 0 /\ sm_total (sm_run sm_init w_total_ops) = 16.
-Proof. exact w_total. Qed.
-Print Assumptions C16_total_refuted.
 
 (* F2b: after Remove of a node's first entry a split below the surviving first entry indexes Children[-1] *)
 Theorem C16_split_panic_refuted : exists st, run_new 2 w_panic_ops = Ok st /\
@@ -49,10 +44,12 @@ Print Assumptions C16_orphan_refuted.
 (* PROVED PART.  set_only_refines: for every fan-out m >= 2 and every history of Set / Increase / Decrease (any keys, any
    integers, any length) on a fresh tree: no panic, no fuel exhaustion; the well-formedness invariant WF (DESIGN 9.4) holds;
    and every query answers like the sorted map with the same contents - point lookup, three-way split, subset sum (for
-   start <= end or one open end), prefix sum, ordered forward / reverse / ranged iteration - with TotalAccumulatedValue and
-   SubsetAccumulation(nil, nil) as the code actually computes them (the empty key's value, F2a); left+exact+right of any
-   split is the true total.  [op_ok]: an operation's nil-slice flag is only set for the empty key.
-   The split position is the generated constant pair (gen_split_div, gen_split_add) read from node.go on every run. *)
+   start <= end or one open end), prefix sum, TotalAccumulatedValue = the sum of all values, ordered forward / reverse /
+   ranged iteration.  (SubsetAccumulation is also characterised for the arguments outside its documented domain,
+   [an_subset_code]: (nil, nil) gives the empty key's value, start > end minus the sum strictly between.)
+   [op_ok]: an operation's nil-slice flag is only set for the empty key.
+   The split position is the generated constant pair (gen_split_div, gen_split_add) read from node.go on every run; the
+   translator also refuses to run unless TotalAccumulatedValue has the repaired body the model mirrors. *)
 Theorem set_only_refines : forall m ops, (2 <= m)%nat -> Forall op_ok ops -> set_only ops ->
   exists st, run_new m ops = Ok st /\ WF m st /\ answers_actual st (sm_run sm_init ops).
 Proof. exact set_only_refines_lemma. Qed.
@@ -63,7 +60,7 @@ Print Assumptions set_only_refines.
    below level 1 - frame lemmas in C16/FrameProof.v), hence point lookups and ordered forward / reverse / ranged iteration
    answer like the sorted map even in the states that finding F2 damages; and whenever the store still satisfies WF (in
    particular: every node still keyed by its first entry, the left-most node of every level still there) every other query
-   (split, subset sum, prefix sum; total as the code computes it) does too.
+   (split, subset sum, prefix sum, total) does too.
    NOT proved, and false (C16_split_panic_refuted, C16_merge_stale_refuted, C16_orphan_refuted): that WF survives Remove. *)
 Theorem remove_safe_partial : forall m ops st, run_new m ops = Ok st ->
   abs st = sm_run sm_init ops /\
@@ -97,6 +94,11 @@ Theorem C16_step_preserves : forall m st o, (2 <= m)%nat -> WF m st -> op_ok o -
 Proof. exact apply_op_wf. Qed.
 Print Assumptions C16_step_preserves.
 
+(* the former F2a witness (one Set on a fresh tree) now yields the true total *)
+Example C16_total_repaired : exists st, run_new 2 w_total_ops = Ok st /\
+  total_acc st = Ok 16 /\ sm_total (sm_run sm_init w_total_ops) = 16.
+Proof. exact w_total_fixed. Qed.
+
 (* the generated constants are the ones the proofs were carried out for *)
 Example C16_consts_checked : gen_split_div = 2%nat /\ gen_split_add = 1%nat /\ gen_node_prefix = [110; 111; 100; 101; 47].
 Proof. repeat split; reflexivity. Qed.
@@ -110,7 +112,7 @@ Example set_only_refines_nonvacuous :
   Forall op_ok nv_ops /\ set_only nv_ops /\
   exists st, run_new 2 nv_ops = Ok st /\ root st = Some (mkPtr 6 [] false) /\ length st = 31%nat /\
     split_acc st [98] = Ok (33, 105, -19) /\ sm_split (sm_run sm_init nv_ops) [98] = (33, 105, -19) /\
-    total_acc st = Ok 3 /\ sm_total (sm_run sm_init nv_ops) = 119.
+    total_acc st = Ok 119 /\ sm_total (sm_run sm_init nv_ops) = 119.
 Proof.
   split; [repeat constructor; unfold nil_flag_ok; try discriminate; auto|]. split; [reflexivity|].
   eexists; split; [vm_compute; reflexivity|]. vm_compute. repeat split; reflexivity.
